@@ -1,11 +1,14 @@
 package props
 
 import (
+	"fmt"
 	"go/ast"
 	"go/constant"
 	"go/token"
 	"go/types"
+	"os"
 	"regexp"
+	"strconv"
 	"strings"
 
 	"pdfverif/internal/core"
@@ -219,18 +222,87 @@ func ruleEmissionLiterals(c *core.Ctx, rule string) {
 		g := fn.Graph()
 		info := fn.Info()
 		heads := loopHeads(g)
+		if len(heads) > 1 {
+			// loops of helpers that were folded in: the entry loop is the one bounded by nextRef
+			var own []*core.V
+			for _, h := range heads {
+				if h.Cond.Expr != nil && mentionsField(info, h.Cond.Expr, "nextRef") {
+					own = append(own, h)
+				}
+			}
+			heads = own
+		}
 		if len(heads) != 1 {
 			core.Undecided("expected one loop")
 		}
 		o.At(fn.Site(heads[0].AST, "entry loop"))
 		// loop bound mentions nextRef
-		o.Require(strings.Contains(core.ExprStr(heads[0].Cond.Expr), "nextRef"), "the entry loop is not bounded by nextRef")
+		o.Require(heads[0].Cond.Expr != nil && mentionsField(info, heads[0].Cond.Expr, "nextRef"), "the entry loop is not bounded by nextRef")
 		// header count is nextRef too
+		headerSeen := false
 		for _, l := range literalsWritten(fn) {
 			if l.Fmt && strings.HasPrefix(l.S, "xref") {
-				o.Require(len(l.Call.Args) == 3 && strings.Contains(core.ExprStr(l.Call.Args[2]), "nextRef"), "the subsection header does not print nextRef as its count")
+				headerSeen = true
+				o.Require(len(l.Call.Args) == 3 && mentionsField(info, l.Call.Args[2], "nextRef"), "the subsection header does not print nextRef as its count")
 			}
 		}
+		// the in-use entry prints (offset, generation) of the entry of the loop's number;
+		// the same for lines formatted by hand
+		checkEntryOps := func(site ast.Node, ops []vcase) {
+			if len(ops) != 2 {
+				o.Unrec("in-use entry with %d numeric fields", len(ops))
+				return
+			}
+			for k, want := range []string{"Pos", "Generation"} {
+				got := ""
+				if ops[k].V != nil {
+					got = fieldOfOperand(fn, g, ops[k].V, ops[k].Expr)
+				}
+				if got == "" {
+					o.Unrec("%s: operand %s of the in-use entry is not a field of the cross-reference entry", c.Prog.Pos(site.Pos()), core.ExprStr(ops[k].Expr))
+				} else if got != want {
+					o.FailAt(fn.Site(site, ""), "field %d of the in-use entry prints the entry's %s, must be its %s (7.5.4: offset, then generation)", k+1, got, want)
+				}
+			}
+		}
+		for _, l := range literalsWritten(fn) {
+			if l.Fmt && strings.Contains(fmtShape(l.S), "D{10} D{5} n") && len(l.Call.Args) >= 2 {
+				if v := g.VertexOf(l.Call); v != nil {
+					var ops []vcase
+					for _, a := range l.Call.Args[2:] {
+						ops = append(ops, vcase{a, v})
+					}
+					checkEntryOps(l.Call, ops)
+				}
+			}
+		}
+		for _, v := range g.Vs {
+			if v.AST == nil {
+				continue
+			}
+			for _, cs := range core.CallsIn(info, v.AST, false) {
+				if !(strings.HasSuffix(cs.Key, ".Write") || strings.HasSuffix(cs.Key, ".WriteString")) || len(cs.Call.Args) != 1 {
+					continue
+				}
+				if _, isConst := constBytes(info, cs.Call.Args[0]); isConst {
+					continue
+				}
+				var ops []vcase
+				sh, ok := bufferShapeArgs(c, fn, g, v, cs.Call.Args[0], 8, &ops)
+				if !ok {
+					continue
+				}
+				if strings.HasPrefix(sh, "xref") {
+					headerSeen = true
+					o.At(fn.Site(cs.Call, "subsection header (formatted by hand)"))
+					o.Require(len(ops) == 1 && mentionsField(info, ops[0].Expr, "nextRef"), "the subsection header does not print nextRef as its count")
+				}
+				if strings.Contains(sh, "D{10} D{5} n") {
+					checkEntryOps(cs.Call, ops)
+				}
+			}
+		}
+		o.Shape(headerSeen, "the subsection header 'xref' EOL '0 N' was not found among the writes")
 		// every path through the body writes exactly one entry
 		var entryWrites []*core.V
 		for _, v := range g.Vs {
@@ -401,9 +473,11 @@ func ruleOffsetCapture(c *core.Ctx, rule string) {
 						if cs.Key == "fmt.Fprintf" {
 							if s, ok := core.StringConst(info, cs.Call.Args[1]); ok && strings.Contains(s, "obj") && g.PathExists(sx.V, w, nil) {
 								header = w
-								if len(cs.Call.Args) != 4 || !strings.Contains(core.ExprStr(cs.Call.Args[2]), "ref.Number()") || !strings.Contains(core.ExprStr(cs.Call.Args[3]), "ref.Generation()") {
-									o.FailAt(fn.Site(cs.Call, ""), "object header does not print ref.Number(), ref.Generation()")
+								var ops []vcase
+								for _, a := range cs.Call.Args[2:] {
+									ops = append(ops, vcase{a, w})
 								}
+								checkHeaderOps(o, fn, g, cs.Call, ops)
 							}
 						}
 					}
@@ -418,11 +492,10 @@ func ruleOffsetCapture(c *core.Ctx, rule string) {
 							if !(strings.HasSuffix(cs.Key, ".Write") || strings.HasSuffix(cs.Key, ".WriteString")) || len(cs.Call.Args) != 1 {
 								continue
 							}
-							if s, ok := bufferShape(c, fn, g, w, cs.Call.Args[0], 8); ok && strings.HasPrefix(s, "D+ D+ obj") && header == nil {
+							var ops []vcase
+							if s, ok := bufferShapeArgs(c, fn, g, w, cs.Call.Args[0], 8, &ops); ok && strings.HasPrefix(s, "D+ D+ obj") && header == nil {
 								header = w
-								if !strings.Contains(core.ExprStr(cs.Call.Args[0]), "ref") {
-									o.FailAt(fn.Site(cs.Call, ""), "object header is not built from the reference being written")
-								}
+								checkHeaderOps(o, fn, g, cs.Call, ops)
 							}
 						}
 					}
@@ -810,7 +883,11 @@ func ruleXRefStreamRows(c *core.Ctx, rule string) {
 				}
 			}
 		}
-		o.Count(len(tb) + len(f2) + len(f3))
+		// three kinds of emission are decided by paths, however many sites write them
+		// (one per branch, or one for all branches after a row was computed)
+		if len(tb) > 0 && len(f2) > 0 && len(f3) > 0 {
+			o.Count(3)
+		}
 		errE := errNotNilEdges(g)
 		cut := core.AvoidEdges(errE...)
 		seq := [][]*core.V{tb, f2, f3}
@@ -1978,7 +2055,18 @@ func fillTarget(n ast.Node) ast.Expr {
 // string, so that manual formatting and fmt.Fprintf are judged by the same
 // grammar.
 func bufferShape(c *core.Ctx, fn *core.Func, g *core.Graph, at *core.V, e ast.Expr, depth int) (string, bool) {
+	return bufferShapeArgs(c, fn, g, at, e, depth, nil)
+}
+
+// bufferShapeArgs is bufferShape that also collects, in order, the operand
+// printed by every numeric field of the shape (as an expression of fn; an
+// operand inside a helper that is one of its parameters is replaced by the
+// argument of the call).
+func bufferShapeArgs(c *core.Ctx, fn *core.Func, g *core.Graph, at *core.V, e ast.Expr, depth int, ops *[]vcase) (string, bool) {
 	info := fn.Info()
+	if os.Getenv("PDFVERIF_DEBUG_SHAPE") != "" {
+		fmt.Fprintf(os.Stderr, "shape %s depth=%d: %s\n", fn.Key, depth, core.ExprStr(e))
+	}
 	if depth <= 0 {
 		return "", false
 	}
@@ -1995,9 +2083,47 @@ func bufferShape(c *core.Ctx, fn *core.Func, g *core.Graph, at *core.V, e ast.Ex
 			}
 		}
 		if x.Low == nil && x.High == nil {
-			return bufferShape(c, fn, g, at, x.X, depth)
+			return bufferShapeArgs(c, fn, g, at, x.X, depth, ops)
 		}
 		return "", false
+	case *ast.SelectorExpr:
+		// a scratch buffer kept in a field (w.scratch = f(w.scratch[:0], ..); Write(w.scratch)):
+		// followed only when the assignment is the statement right before the use
+		if s := info.Selections[x]; s == nil || s.Kind() != types.FieldVal {
+			return "", false
+		}
+		want := resolveText(g, at, x.X, 2) + "." + x.Sel.Name
+		var def *core.V
+		live := g.ReachFrom(g.Entry, true, nil)
+		for cur := at; ; {
+			var preds []*core.V
+			for _, p := range cur.Preds {
+				if live[p] {
+					preds = append(preds, p)
+				}
+			}
+			if len(preds) != 1 {
+				return "", false
+			}
+			def = preds[0]
+			if _, isEmpty := def.AST.(*ast.EmptyStmt); (isEmpty || def.AST == nil) && len(def.Succs) == 1 {
+				cur = def // the join after a folded-in helper
+				continue
+			}
+			break
+		}
+		if def == nil || len(def.Succs) != 1 {
+			return "", false
+		}
+		as, isAs := def.AST.(*ast.AssignStmt)
+		if !isAs || len(as.Lhs) != 1 || len(as.Rhs) != 1 || as.Tok != token.ASSIGN {
+			return "", false
+		}
+		lsel, isSel := ast.Unparen(as.Lhs[0]).(*ast.SelectorExpr)
+		if !isSel || resolveText(g, def, lsel.X, 2)+"."+lsel.Sel.Name != want {
+			return "", false
+		}
+		return bufferShapeArgs(c, fn, g, def, as.Rhs[0], depth-1, ops)
 	case *ast.Ident:
 		if core.IsNil(info, x) {
 			return "", true
@@ -2006,12 +2132,12 @@ func bufferShape(c *core.Ctx, fn *core.Func, g *core.Graph, at *core.V, e ast.Ex
 		if len(cs) != 1 || cs[0].V == nil || cs[0].V == at || cs[0].Expr == ast.Expr(x) {
 			return "", false
 		}
-		return bufferShape(c, fn, g, cs[0].V, cs[0].Expr, depth-1)
+		return bufferShapeArgs(c, fn, g, cs[0].V, cs[0].Expr, depth-1, ops)
 	case *ast.CallExpr:
 		key := core.CalleeKey(info, x)
 		// conversions: []byte("...")
 		if tv, ok := info.Types[x.Fun]; ok && tv.IsType() && len(x.Args) == 1 {
-			return bufferShape(c, fn, g, at, x.Args[0], depth)
+			return bufferShapeArgs(c, fn, g, at, x.Args[0], depth, ops)
 		}
 		switch key {
 		case "builtin.make":
@@ -2025,13 +2151,24 @@ func bufferShape(c *core.Ctx, fn *core.Func, g *core.Graph, at *core.V, e ast.Ex
 			if len(x.Args) < 1 {
 				return "", false
 			}
-			base, ok := bufferShape(c, fn, g, at, x.Args[0], depth)
+			if x.Ellipsis.IsValid() && len(x.Args) == 2 {
+				// append(buf, digits...) after a loop that pads buf with zeros up to a
+				// constant width (a padding helper folded into this function)
+				if s, ok := paddedAppend(c, fn, g, at, x, depth, ops); ok {
+					return s, true
+				}
+			}
+			base, ok := bufferShapeArgs(c, fn, g, at, x.Args[0], depth, ops)
 			if !ok {
 				return "", false
 			}
 			if x.Ellipsis.IsValid() && len(x.Args) == 2 {
-				s, ok := bufferShape(c, fn, g, at, x.Args[1], depth)
+				s, ok := bufferShapeArgs(c, fn, g, at, x.Args[1], depth, ops)
 				if !ok {
+					// a string that is not a constant: what %s stands for in a format
+					if b, isB := info.TypeOf(x.Args[1]).Underlying().(*types.Basic); isB && b.Info()&types.IsString != 0 {
+						return base + "S", true
+					}
 					return "", false
 				}
 				return base + s, true
@@ -2046,9 +2183,16 @@ func bufferShape(c *core.Ctx, fn *core.Func, g *core.Graph, at *core.V, e ast.Ex
 			return base, true
 		case "strconv.AppendUint", "strconv.AppendInt":
 			if len(x.Args) == 3 {
-				if b, ok := core.IntConst(info, x.Args[2]); ok && b == 10 {
-					base, ok := bufferShape(c, fn, g, at, x.Args[0], depth)
+				if b, ok := core.IntConst(info, x.Args[2]); ok {
+					base, ok := bufferShapeArgs(c, fn, g, at, x.Args[0], depth, ops)
 					if ok {
+						if ops != nil {
+							*ops = append(*ops, vcase{x.Args[1], at})
+						}
+						if b != 10 {
+							// a number in another base: no part of the file grammar
+							return base + "<base" + strconv.FormatInt(b, 10) + ">", true
+						}
 						return base + "D+", true
 					}
 				}
@@ -2064,8 +2208,18 @@ func bufferShape(c *core.Ctx, fn *core.Func, g *core.Graph, at *core.V, e ast.Ex
 		if h == nil || h.Decl.Body == nil || h.Decl.Type.Params == nil || len(h.Decl.Type.Params.List) == 0 || len(h.Decl.Type.Params.List[0].Names) == 0 {
 			return "", false
 		}
-		base, ok := bufferShape(c, fn, g, at, x.Args[0], depth)
+		base, ok := bufferShapeArgs(c, fn, g, at, x.Args[0], depth, ops)
 		if !ok {
+			return "", false
+		}
+		if opIdx, wIdx, isPad := padHelper(h); isPad && opIdx < len(x.Args) && wIdx < len(x.Args) {
+			// zero padding to a constant width: the text of %0Nd
+			if k, ok := core.IntConst(info, x.Args[wIdx]); ok && k >= 1 && k <= 20 {
+				if ops != nil {
+					*ops = append(*ops, vcase{x.Args[opIdx], at})
+				}
+				return base + "D{" + strconv.FormatInt(k, 10) + "}", true
+			}
 			return "", false
 		}
 		hg := h.Graph()
@@ -2082,9 +2236,27 @@ func bufferShape(c *core.Ctx, fn *core.Func, g *core.Graph, at *core.V, e ast.Ex
 		if len(loopHeads(hg)) > 0 {
 			return "", false
 		}
-		s, ok := helperShape(c, h, hg, rets[0], rs.Results[0], dst, depth-1)
+		var hops []vcase
+		s, ok := helperShape(c, h, hg, rets[0], rs.Results[0], dst, depth-1, &hops)
 		if !ok {
 			return "", false
+		}
+		if ops != nil {
+			for _, op := range hops {
+				// an operand that is a parameter of the helper: the call's argument,
+				// evaluated here; anything else stays an expression of the helper
+				// (no vertex of this graph)
+				k := paramIndex(h, op.Expr)
+				unassigned := false
+				if id, isID := peelConv(h.Info(), op.Expr).(*ast.Ident); isID && k >= 0 {
+					unassigned = len(defVertices(hg, h.Info().ObjectOf(id))) == 0
+				}
+				if k >= 0 && k < len(x.Args) && unassigned {
+					*ops = append(*ops, vcase{x.Args[k], at})
+				} else {
+					*ops = append(*ops, vcase{op.Expr, nil})
+				}
+			}
 		}
 		return base + s, true
 	}
@@ -2093,7 +2265,7 @@ func bufferShape(c *core.Ctx, fn *core.Func, g *core.Graph, at *core.V, e ast.Ex
 
 // helperShape is bufferShape inside a helper, with the helper's destination
 // parameter standing for the empty prefix.
-func helperShape(c *core.Ctx, h *core.Func, g *core.Graph, at *core.V, e ast.Expr, dst types.Object, depth int) (string, bool) {
+func helperShape(c *core.Ctx, h *core.Func, g *core.Graph, at *core.V, e ast.Expr, dst types.Object, depth int, ops *[]vcase) (string, bool) {
 	info := h.Info()
 	if id, ok := ast.Unparen(e).(*ast.Ident); ok && info.ObjectOf(id) == dst {
 		if len(defVertices(g, dst)) == 0 {
@@ -2101,7 +2273,7 @@ func helperShape(c *core.Ctx, h *core.Func, g *core.Graph, at *core.V, e ast.Exp
 		}
 		cs := usesBefore(g, at, id)
 		if len(cs) == 1 && cs[0].V != nil && cs[0].V != at {
-			return helperShape(c, h, g, cs[0].V, cs[0].Expr, dst, depth-1)
+			return helperShape(c, h, g, cs[0].V, cs[0].Expr, dst, depth-1, ops)
 		}
 		if len(cs) == 0 || (len(cs) == 1 && cs[0].Expr == ast.Expr(id)) {
 			return "", true // no assignment reaches this use: the parameter's own value
@@ -2115,7 +2287,7 @@ func helperShape(c *core.Ctx, h *core.Func, g *core.Graph, at *core.V, e ast.Exp
 		key := core.CalleeKey(info, call)
 		switch key {
 		case "builtin.append":
-			base, ok := helperShape(c, h, g, at, call.Args[0], dst, depth)
+			base, ok := helperShape(c, h, g, at, call.Args[0], dst, depth, ops)
 			if !ok {
 				return "", false
 			}
@@ -2137,8 +2309,11 @@ func helperShape(c *core.Ctx, h *core.Func, g *core.Graph, at *core.V, e ast.Exp
 		case "strconv.AppendUint", "strconv.AppendInt":
 			if len(call.Args) == 3 {
 				if b, ok := core.IntConst(info, call.Args[2]); ok && b == 10 {
-					base, ok := helperShape(c, h, g, at, call.Args[0], dst, depth)
+					base, ok := helperShape(c, h, g, at, call.Args[0], dst, depth, ops)
 					if ok {
+						if ops != nil {
+							*ops = append(*ops, vcase{call.Args[1], at})
+						}
 						return base + "D+", true
 					}
 				}
@@ -2149,10 +2324,490 @@ func helperShape(c *core.Ctx, h *core.Func, g *core.Graph, at *core.V, e ast.Exp
 	if id, ok := ast.Unparen(e).(*ast.Ident); ok {
 		cs := usesBefore(g, at, id)
 		if len(cs) == 1 && cs[0].V != nil && cs[0].V != at && cs[0].Expr != ast.Expr(id) {
-			return helperShape(c, h, g, cs[0].V, cs[0].Expr, dst, depth-1)
+			return helperShape(c, h, g, cs[0].V, cs[0].Expr, dst, depth-1, ops)
 		}
 	}
 	return "", false
+}
+
+// mentionsField reports whether e selects a field (or calls a method) of the given name.
+func mentionsField(info *types.Info, e ast.Expr, name string) bool {
+	found := false
+	ast.Inspect(e, func(n ast.Node) bool {
+		if sel, ok := n.(*ast.SelectorExpr); ok && sel.Sel.Name == name {
+			if _, isVar := info.ObjectOf(sel.Sel).(*types.Var); isVar {
+				found = true
+			}
+		}
+		return !found
+	})
+	return found
+}
+
+// fieldOfOperand names the field of a cross-reference entry that the operand
+// at vertex `at` prints: the operand itself (through conversions) or the
+// single definition of the local it names must select a field of *xRefEntry.
+func fieldOfOperand(fn *core.Func, g *core.Graph, at *core.V, e ast.Expr) string {
+	info := fn.Info()
+	for depth := 0; depth < 4; depth++ {
+		for {
+			e = ast.Unparen(e)
+			call, ok := e.(*ast.CallExpr)
+			if !ok || len(call.Args) != 1 {
+				break
+			}
+			if tv, isT := info.Types[call.Fun]; !isT || !tv.IsType() {
+				break
+			}
+			e = call.Args[0]
+		}
+		switch x := e.(type) {
+		case *ast.SelectorExpr:
+			if s := info.Selections[x]; s != nil && s.Kind() == types.FieldVal {
+				recv := s.Recv()
+				if p, isP := recv.(*types.Pointer); isP {
+					recv = p.Elem()
+				}
+				if n, isN := recv.(*types.Named); isN && n.Obj().Name() == "xRefEntry" {
+					return x.Sel.Name
+				}
+			}
+			return ""
+		case *ast.Ident:
+			cs := valueCases(g, at, x, 1)
+			if len(cs) != 1 || cs[0].Expr == ast.Expr(x) || cs[0].V == nil {
+				return ""
+			}
+			e, at = cs[0].Expr, cs[0].V
+		default:
+			return ""
+		}
+	}
+	return ""
+}
+
+// paddedAppend recognises, in the graph of fn,
+//
+//	for n := len(d); n < W; n++ { buf = append(buf, '0') }   (or n := W-len(d); n > 0; n--)
+//	... append(buf, d...)
+//
+// where d has the shape of one decimal number and W is a constant: the text
+// of %0Wd appended to what buf held before the loop.
+func paddedAppend(c *core.Ctx, fn *core.Func, g *core.Graph, at *core.V, call *ast.CallExpr, depth int, ops *[]vcase) (string, bool) {
+	info := fn.Info()
+	bufID, ok1 := ast.Unparen(call.Args[0]).(*ast.Ident)
+	digID, ok2 := ast.Unparen(call.Args[1]).(*ast.Ident)
+	if !ok1 || !ok2 || depth <= 1 {
+		return padFail(1)
+	}
+	buf, dig := info.ObjectOf(bufID), info.ObjectOf(digID)
+	if buf == nil || dig == nil {
+		return padFail(2)
+	}
+	cs := usesBefore(g, at, bufID)
+	if len(cs) != 2 {
+		return padFail(3)
+	}
+	isPad := func(vc vcase) bool {
+		if vc.V == nil {
+			return false
+		}
+		ap, ok := ast.Unparen(vc.Expr).(*ast.CallExpr)
+		if !ok || core.CalleeKey(info, ap) != "builtin.append" || len(ap.Args) != 2 || ap.Ellipsis.IsValid() || core.ObjOf(info, ap.Args[0]) != buf {
+			return false
+		}
+		k, isK := core.IntConst(info, ap.Args[1])
+		return isK && k == '0'
+	}
+	var pad, first vcase
+	switch {
+	case isPad(cs[0]) && !isPad(cs[1]):
+		pad, first = cs[0], cs[1]
+	case isPad(cs[1]) && !isPad(cs[0]):
+		pad, first = cs[1], cs[0]
+	default:
+		return padFail(4)
+	}
+	if first.V == nil || first.Expr == ast.Expr(bufID) {
+		return padFail(5)
+	}
+	// the loop around the padding statement
+	var head *core.V
+	for _, h := range loopHeads(g) {
+		if h.Cond.Expr == nil {
+			continue
+		}
+		body := succ(h, core.EdgeTrue)
+		if body == nil {
+			continue
+		}
+		in := g.ReachFrom(body, true, core.AvoidVs(h))
+		if !in[pad.V] {
+			continue
+		}
+		// nothing else happens in the loop
+		okBody := true
+		for v := range in {
+			if v == pad.V || v.AST == nil || !g.ReachFrom(v, false, core.AvoidVs())[h] {
+				continue
+			}
+			if _, isInc := v.AST.(*ast.IncDecStmt); isInc {
+				continue
+			}
+			if v.Cond != nil {
+				okBody = false
+			}
+			if _, isStmt := v.AST.(ast.Stmt); isStmt {
+				okBody = false
+			}
+		}
+		if okBody {
+			head = h
+		}
+	}
+	if head == nil {
+		return padFail(6)
+	}
+	cond, ok := ast.Unparen(head.Cond.Expr).(*ast.BinaryExpr)
+	if !ok {
+		return padFail(7)
+	}
+	nID, ok := ast.Unparen(cond.X).(*ast.Ident)
+	if !ok {
+		return padFail(8)
+	}
+	n := info.ObjectOf(nID)
+	isLenDigits := func(e ast.Expr) bool {
+		lc, isCall := ast.Unparen(e).(*ast.CallExpr)
+		return isCall && core.CalleeKey(info, lc) == "builtin.len" && len(lc.Args) == 1 && core.ObjOf(info, lc.Args[0]) == dig
+	}
+	var initRHS ast.Expr
+	step := token.ILLEGAL
+	var initV *core.V
+	for _, d := range reachingDefs(g, head, n) {
+		switch st := d.AST.(type) {
+		case *ast.AssignStmt:
+			if initRHS != nil || len(st.Lhs) != 1 || len(st.Rhs) != 1 || g.ReachFrom(succ(head, core.EdgeTrue), true, core.AvoidVs(head))[d] {
+				return padFail(9)
+			}
+			initRHS = st.Rhs[0]
+			initV = d
+		case *ast.IncDecStmt:
+			if step != token.ILLEGAL {
+				return padFail(10)
+			}
+			step = st.Tok
+		default:
+			return padFail(11)
+		}
+	}
+	if initRHS == nil {
+		return padFail(12)
+	}
+	var widthExpr ast.Expr
+	switch {
+	case cond.Op == token.LSS && step == token.INC && isLenDigits(initRHS):
+		widthExpr = cond.Y
+	case cond.Op == token.GTR && step == token.DEC:
+		if k, isK := core.IntConst(info, cond.Y); !isK || k != 0 {
+			return padFail(13)
+		}
+		sub, isSub := ast.Unparen(initRHS).(*ast.BinaryExpr)
+		if !isSub || sub.Op != token.SUB || !isLenDigits(sub.Y) {
+			return padFail(14)
+		}
+		widthExpr = sub.X
+	default:
+		return padFail(15)
+	}
+	width, ok := intConstVia(g, head, widthExpr)
+	if !ok || width < 1 || width > 20 {
+		return padFail(16)
+	}
+	// the digits: one decimal number, defined once, before the loop
+	digDefs := reachingDefs(g, at, dig)
+	if d0 := reachingDefs(g, initV, dig); len(digDefs) != 1 || len(d0) != 1 || d0[0] != digDefs[0] {
+		return padFail(17)
+	}
+	var dops []vcase
+	ds, ok := bufferShapeArgs(c, fn, g, at, digID, depth-1, &dops)
+	if !ok || ds != "D+" || len(dops) != 1 {
+		return padFail(18)
+	}
+	base, ok := bufferShapeArgs(c, fn, g, first.V, first.Expr, depth-1, ops)
+	if !ok {
+		return padFail(19)
+	}
+	if ops != nil {
+		*ops = append(*ops, dops[0])
+	}
+	return base + "D{" + strconv.FormatInt(width, 10) + "}", true
+}
+
+func padFail(k int) (string, bool) {
+	if os.Getenv("PDFVERIF_DEBUG_SHAPE") != "" {
+		fmt.Fprintf(os.Stderr, "paddedAppend: exit %d\n", k)
+	}
+	return "", false
+}
+
+// reachingDefs lists the definitions of obj that reach vertex at.
+func reachingDefs(g *core.Graph, at *core.V, obj types.Object) []*core.V {
+	defs := defVertices(g, obj)
+	var out []*core.V
+	for _, d := range defs {
+		var others []*core.V
+		for _, x := range defs {
+			if x != d {
+				others = append(others, x)
+			}
+		}
+		if g.ReachFrom(d, false, core.AvoidVs(others...))[at] {
+			out = append(out, d)
+		}
+	}
+	return out
+}
+
+// intConstVia evaluates e at vertex `at` to an integer constant, following
+// single definitions of locals (width := 10 of a folded-in helper).
+func intConstVia(g *core.Graph, at *core.V, e ast.Expr) (int64, bool) {
+	for depth := 0; depth < 4; depth++ {
+		if k, ok := core.IntConst(g.Info, e); ok {
+			return k, true
+		}
+		id, ok := ast.Unparen(e).(*ast.Ident)
+		if !ok {
+			return 0, false
+		}
+		cs := valueCases(g, at, id, 1)
+		if len(cs) != 1 || cs[0].V == nil || cs[0].Expr == ast.Expr(id) {
+			return 0, false
+		}
+		e, at = cs[0].Expr, cs[0].V
+	}
+	return 0, false
+}
+
+// checkHeaderOps: the two numbers of an object header "N G obj" are the
+// number and the generation of one reference, in this order.
+func checkHeaderOps(o *core.Ob, fn *core.Func, g *core.Graph, site ast.Node, ops []vcase) {
+	if len(ops) != 2 {
+		o.FailAt(fn.Site(site, ""), "object header prints %d numbers, must print the object number and the generation", len(ops))
+		return
+	}
+	var recv [2]string
+	for k, want := range []string{"Number", "Generation"} {
+		got := ""
+		if ops[k].V != nil {
+			got, recv[k] = methodOfOperand(fn, g, ops[k].V, ops[k].Expr)
+		}
+		switch {
+		case got == "":
+			o.Unrec("object header: operand %s is not the result of Reference.Number/Generation in a form that is followed", core.ExprStr(ops[k].Expr))
+			return
+		case got != want:
+			o.FailAt(fn.Site(site, ""), "field %d of the object header prints the reference's %s(), must be its %s() ('N G obj': object number, then generation)", k+1, got, want)
+			return
+		}
+	}
+	if recv[0] != recv[1] {
+		o.FailAt(fn.Site(site, ""), "object header takes the number from %s and the generation from %s", recv[0], recv[1])
+	}
+}
+
+// methodOfOperand: the operand (through conversions and single definitions
+// of locals) is a call of a method of pdf.Reference; its name and receiver text.
+func methodOfOperand(fn *core.Func, g *core.Graph, at *core.V, e ast.Expr) (string, string) {
+	info := fn.Info()
+	for depth := 0; depth < 4; depth++ {
+		e = peelConv(info, e)
+		switch x := e.(type) {
+		case *ast.CallExpr:
+			sel, ok := ast.Unparen(x.Fun).(*ast.SelectorExpr)
+			if !ok || len(x.Args) != 0 {
+				return "", ""
+			}
+			if s := info.Selections[sel]; s != nil && s.Kind() == types.MethodVal && core.IsNamed(s.Recv(), "pdf", "Reference") {
+				return sel.Sel.Name, resolveText(g, at, sel.X, 4)
+			}
+			return "", ""
+		case *ast.Ident:
+			cs := valueCases(g, at, x, 1)
+			if len(cs) != 1 || cs[0].Expr == ast.Expr(x) || cs[0].V == nil {
+				return "", ""
+			}
+			e, at = cs[0].Expr, cs[0].V
+		default:
+			return "", ""
+		}
+	}
+	return "", ""
+}
+
+// peelConv strips parentheses and type conversions.
+func peelConv(info *types.Info, e ast.Expr) ast.Expr {
+	for {
+		e = ast.Unparen(e)
+		call, ok := e.(*ast.CallExpr)
+		if !ok || len(call.Args) != 1 {
+			return e
+		}
+		if tv, isT := info.Types[call.Fun]; !isT || !tv.IsType() {
+			return e
+		}
+		e = call.Args[0]
+	}
+}
+
+// paramIndex returns the position of the parameter of h that e denotes
+// (through conversions and parentheses), or -1.
+func paramIndex(h *core.Func, e ast.Expr) int {
+	info := h.Info()
+	e = peelConv(info, e)
+	id, ok := e.(*ast.Ident)
+	if !ok || h.Decl.Type.Params == nil {
+		return -1
+	}
+	obj := info.ObjectOf(id)
+	k := 0
+	for _, f := range h.Decl.Type.Params.List {
+		for _, n := range f.Names {
+			if info.ObjectOf(n) == obj {
+				return k
+			}
+			k++
+		}
+	}
+	return -1
+}
+
+// padHelper recognises a helper func(dst []byte, x <integer>, width int) []byte
+// that appends the decimal digits of x padded with leading zeros to at least
+// width digits -- the text of the fmt verb %0*d for a non-negative value:
+//
+//	d := strconv.AppendUint(tmp[:0], x, 10)
+//	for n := len(d); n < width; n++ { dst = append(dst, '0') }
+//	return append(dst, d...)
+//
+// (or the loop counting width-len(d) down to zero).  It returns the
+// positions of the operand and of the width among the parameters.
+func padHelper(h *core.Func) (opIdx, widthIdx int, ok bool) {
+	info := h.Info()
+	if h.Decl.Body == nil || h.Decl.Type.Params == nil || paramCount(h) < 3 {
+		return 0, 0, false
+	}
+	dstIdx := 0
+	var digits types.Object
+	opIdx, widthIdx = -1, -1
+	stage := 0 // 0: before the digits, 1: digits known, 2: padded, 3: returned
+	for _, st := range h.Decl.Body.List {
+		switch x := st.(type) {
+		case *ast.DeclStmt:
+			// var tmp [20]byte
+			continue
+		case *ast.AssignStmt:
+			if stage != 0 || len(x.Lhs) != 1 || len(x.Rhs) != 1 || x.Tok != token.DEFINE {
+				return 0, 0, false
+			}
+			call, isCall := ast.Unparen(x.Rhs[0]).(*ast.CallExpr)
+			if !isCall || len(call.Args) != 3 {
+				return 0, 0, false
+			}
+			key := core.CalleeKey(info, call)
+			if key != "strconv.AppendUint" && key != "strconv.AppendInt" {
+				return 0, 0, false
+			}
+			if b, isK := core.IntConst(info, call.Args[2]); !isK || b != 10 {
+				return 0, 0, false
+			}
+			se, isSl := ast.Unparen(call.Args[0]).(*ast.SliceExpr)
+			if !isSl || se.High == nil {
+				return 0, 0, false
+			}
+			if k, isK := core.IntConst(info, se.High); !isK || k != 0 {
+				return 0, 0, false
+			}
+			opIdx = paramIndex(h, call.Args[1])
+			if opIdx <= dstIdx {
+				return 0, 0, false
+			}
+			digits = core.ObjOf(info, x.Lhs[0])
+			stage = 1
+		case *ast.ForStmt:
+			if stage != 1 || digits == nil {
+				return 0, 0, false
+			}
+			init, isA := x.Init.(*ast.AssignStmt)
+			cond, isB := x.Cond.(*ast.BinaryExpr)
+			post, isI := x.Post.(*ast.IncDecStmt)
+			if !isA || !isB || !isI || len(init.Lhs) != 1 || len(init.Rhs) != 1 || init.Tok != token.DEFINE {
+				return 0, 0, false
+			}
+			n := core.ObjOf(info, init.Lhs[0])
+			if n == nil || core.ObjOf(info, cond.X) != n || core.ObjOf(info, post.X) != n {
+				return 0, 0, false
+			}
+			isLenDigits := func(e ast.Expr) bool {
+				call, isCall := ast.Unparen(e).(*ast.CallExpr)
+				return isCall && core.CalleeKey(info, call) == "builtin.len" && len(call.Args) == 1 && core.ObjOf(info, call.Args[0]) == digits
+			}
+			switch {
+			case isLenDigits(init.Rhs[0]) && cond.Op == token.LSS && post.Tok == token.INC:
+				widthIdx = paramIndex(h, cond.Y)
+			case cond.Op == token.GTR && post.Tok == token.DEC:
+				if k, isK := core.IntConst(info, cond.Y); !isK || k != 0 {
+					return 0, 0, false
+				}
+				sub, isSub := ast.Unparen(init.Rhs[0]).(*ast.BinaryExpr)
+				if !isSub || sub.Op != token.SUB || !isLenDigits(sub.Y) {
+					return 0, 0, false
+				}
+				widthIdx = paramIndex(h, sub.X)
+			default:
+				return 0, 0, false
+			}
+			if widthIdx <= dstIdx || widthIdx == opIdx {
+				return 0, 0, false
+			}
+			// body: dst = append(dst, '0')
+			if len(x.Body.List) != 1 {
+				return 0, 0, false
+			}
+			as, isAs := x.Body.List[0].(*ast.AssignStmt)
+			if !isAs || len(as.Lhs) != 1 || len(as.Rhs) != 1 || paramIndex(h, as.Lhs[0]) != dstIdx {
+				return 0, 0, false
+			}
+			call, isCall := ast.Unparen(as.Rhs[0]).(*ast.CallExpr)
+			if !isCall || core.CalleeKey(info, call) != "builtin.append" || len(call.Args) != 2 || call.Ellipsis.IsValid() || paramIndex(h, call.Args[0]) != dstIdx {
+				return 0, 0, false
+			}
+			if k, isK := core.IntConst(info, call.Args[1]); !isK || k != '0' {
+				return 0, 0, false
+			}
+			stage = 2
+		case *ast.ReturnStmt:
+			if stage != 2 || len(x.Results) != 1 {
+				return 0, 0, false
+			}
+			call, isCall := ast.Unparen(x.Results[0]).(*ast.CallExpr)
+			if !isCall || core.CalleeKey(info, call) != "builtin.append" || len(call.Args) != 2 || !call.Ellipsis.IsValid() || paramIndex(h, call.Args[0]) != dstIdx || core.ObjOf(info, call.Args[1]) != digits {
+				return 0, 0, false
+			}
+			stage = 3
+		default:
+			return 0, 0, false
+		}
+	}
+	return opIdx, widthIdx, stage == 3
+}
+
+func paramCount(h *core.Func) int {
+	k := 0
+	for _, f := range h.Decl.Type.Params.List {
+		k += len(f.Names)
+	}
+	return k
 }
 
 // usesBefore is valueCases for a use on the right-hand side of the statement
@@ -2185,7 +2840,7 @@ func usesBefore(g *core.Graph, at *core.V, id *ast.Ident) []vcase {
 				others = append(others, x)
 			}
 		}
-		if d != at && !g.ReachFrom(d, false, core.AvoidVs(others...))[at] {
+		if !g.ReachFrom(d, false, core.AvoidVs(others...))[at] {
 			continue
 		}
 		var rhs ast.Expr
